@@ -79,3 +79,13 @@ pub fn vx_iter_all<T, P: FnMut(&T) -> bool>(v: &Vec<T>, p: P) -> (r: bool)
         r ==> (forall|i: int| 0 <= i < v@.len() ==> p.ensures((&#[trigger] v@[i],), true)),
         !r ==> (exists|i: int| 0 <= i < v@.len() && p.ensures((&#[trigger] v@[i],), false)),
 { unimplemented!() }
+
+// ---- slice::Iter::fold(init, f) ----
+/// `v.iter().fold(init, f)`: f is applied to the accumulator and each element in order; `accs` are the
+/// successive accumulator values
+#[verifier::external_body]
+pub fn vx_iter_fold<T, B, F: FnMut(B, &T) -> B>(v: &Vec<T>, init: B, f: F) -> (r: B)
+    requires forall|b: B, x: &T| f.requires((b, x)),
+    ensures exists|accs: Seq<B>| #![trigger accs.len()] accs.len() == v@.len() + 1 && accs[0] == init && r == accs[v@.len() as int]
+        && (forall|j: int| 0 <= j < v@.len() ==> f.ensures((#[trigger] accs[j], &v@[j]), accs[j + 1])),
+{ unimplemented!() }
